@@ -58,6 +58,36 @@ def mk_map_op(t, dims, kind):
                    [{'kind': 'equal', 'a': 'buf', 'b': 'bref', 'cells': n, 'mode': mode}])
 
 
+MAP_OPS = {'=': 'x = y', '+=': 'x = x + y', '-=': 'x = x - y', '*=': 'x = x * y', '/=': 'x = x / y'}
+OPN = {'=': 'set', '+=': 'add', '-=': 'sub', '*=': 'mul', '/=': 'div'}
+
+
+def mk_map_matrix(t, dims, dst, op, src):
+    """dst op= src for every destination kind (map over a raw buffer / owning tensor / reshaped map of a tensor) and every
+    source kind (scalar, tensor, bare map, expression of tensors, expression containing a map): the buffer (or tensor) must
+    end up exactly as the plain loop leaves it"""
+    ct = CTYPE[t]; n = prod(dims)
+    tt = tensor_t(t, dims)
+    mt = 'TensorMap<%s%s>' % (ct, ''.join(',%d' % d for d in dims))
+    srcx, srcr = {'scalar': ('s', 's'), 'tensor': ('a', 'a[i]'), 'map': ('mq', 'q[i]'), 'expr': ('(a*b - b)', '(a[i]*b[i] - b[i])'), 'mapexpr': ('(mq + a)', '(q[i] + a[i])')}[src]
+    mode = 'ALG' if (op == '/=' and src == 'scalar' and t in ('f32', 'f64')) else 'EXACT'
+    decl = '%s mq(q);' % mt if 'map' in src else ''
+    if dst == 'map':
+        wit = 'static_assert(sizeof(%s) > 0, "complete type");\nextern "C" void @W@(%s* d, %s* q, const %s& a, const %s& b, %s s){ %s m(d); %s m %s %s; }' % (tt, ct, ct, tt, tt, ct, mt, decl, op, srcx)
+        dreg = rreg('d', t, n, role='inout', init='sym')
+    elif dst == 'tensor':
+        wit = 'extern "C" void @W@(%s& d, %s* q, const %s& a, const %s& b, %s s){ %s d %s %s; }' % (tt, ct, tt, tt, ct, decl, op, srcx)
+        dreg = treg('d', t, dims, 'inout', init='sym')
+    else:   # a flattened map of an owning tensor: the write must land in the tensor
+        wit = 'extern "C" void @W@(%s& d, %s* q, const %s& a, const %s& b, %s s){ %s auto m = flatten(d); auto fa = flatten(a); auto fb = flatten(b); m %s %s; }' % (tt, ct, tt, tt, ct, decl.replace(mt, 'TensorMap<%s,%d>' % (ct, n)), op, srcx.replace('a', 'fa').replace('b', 'fb') if src in ('tensor', 'expr', 'mapexpr') else srcx)
+        dreg = treg('d', t, dims, 'inout', init='sym')
+    ref = 'extern "C" void @R@(%s* d, const %s* q, const %s* a, const %s* b, %s s){ for(int i=0;i<%d;i++){ %s& x = d[i]; %s y = %s; %s; } }' % (ct, ct, ct, ct, ct, n, ct, ct, srcr, MAP_OPS[op])
+    regions = [dreg, rreg('dref', t, n, init='sym', ns='d'), rreg('q', t, n, role='in', init='sym'), treg('a', t, dims), treg('b', t, dims), rreg('s', t, 1, role='in', init='sym')]
+    return Witness('mapmx_%s_%s_%s_%s_%s' % (dst, OPN[op], src, t, 'x'.join(map(str, dims))), 'map.matrix.%s.%s' % (dst, src), {'type': t, 'dims': list(dims), 'dst': dst, 'op': op, 'src': src}, wit, ref, regions,
+                   [{'mod': 'wit', 'fn': '@W@', 'args': ['d', 'q', 'a', 'b', {'scalar': 's'}]}, {'mod': 'ref', 'fn': '@R@', 'args': ['dref', 'q', 'a', 'b', {'scalar': 's'}]}],
+                   [{'kind': 'equal', 'a': 'd', 'b': 'dref', 'cells': n, 'mode': mode}])
+
+
 def mk_map_read(t, dims, kind):
     ct = CTYPE[t]; n = prod(dims)
     mt = 'TensorMap<%s%s>' % (ct, ''.join(',%d' % d for d in dims))
@@ -152,6 +182,17 @@ def witnesses(tier, seed):
                 W.append(mk_map_op(t, dims, kind))
             for kind in ('expr', 'copy', 'sum'):
                 W.append(mk_map_read(t, dims, kind))
+    k = 0
+    for dims in [[3], [4], [7], [9], [17], [2, 3], [4, 4], [2, 3, 3]] + ([] if quick else [[1], [8], [16], [33], [3, 5]]):
+        for dst in ('map', 'tensor', 'flatmap'):
+            for op in MAP_OPS:
+                for src in ('scalar', 'tensor', 'map', 'expr', 'mapexpr'):
+                    if dst == 'tensor' and src in ('scalar', 'tensor', 'expr'):
+                        continue      # no map involved: C02/C05 territory
+                    if dst != 'tensor' and src == 'scalar' and op == '=':
+                        continue      # TensorMap has no operator=(scalar) in any configuration (fill() is covered above)
+                    k += 1
+                    W.append(mk_map_matrix(T3[k % 3], list(dims), dst, op, src))
     for (M, N) in [(2, 2), (3, 3), (4, 4), (5, 4), (3, 8), (8, 8), (9, 5)]:
         for t in ('f64', 'f32'):
             W.append(mk_map_read(t, [M, N], 'matmul'))
